@@ -543,3 +543,36 @@ PLUS = Contract(
 PLUS.no_callee = True
 PLUS.label = "two circuits / a circuit and a number"
 CONTRACTS += [PLUS]
+
+
+# ---------------------------------------------------------------------------------------------- Circuit getters (C02 / C08): sizes, and copies of the herald maps
+INPUT_MODES = Contract(
+    target=f"{CIRC}:Circuit.input_modes", kind="getter",
+    types={"self": _CIRCUIT}, requires=[], modifies=[],
+    # the number of modes a user supplies a state for: all modes except the heralded inputs
+    ensures={"all_modes_but_the_heralded_inputs": "result == self.__n_modes - len(self.__in_heralds)"},
+    raises={}, props=["C02", "C03"],
+)
+INPUT_MODES.no_callee = True
+HERALDS = Contract(
+    target=f"{CIRC}:Circuit.heralds", kind="getter",
+    types={"self": _CIRCUIT}, requires=[], modifies=[],
+    ensures={
+        # what is handed out are copies: nothing a caller does to them can change the circuit's heralds
+        "copies": "fresh_ref(result) and fresh_ref(result['input']) and fresh_ref(result['output'])",
+        "same_content": _same_dict("result['input']", "self.__in_heralds") + " and " + _same_dict("result['output']", "self.__out_heralds"),
+    },
+    raises={}, props=["C02", "C08"],
+)
+HERALDS.no_callee = True
+EXT_HERALDS = Contract(
+    target=f"{CIRC}:Circuit._external_heralds", kind="getter",
+    types={"self": _CIRCUIT}, requires=[], modifies=[],
+    ensures={
+        "copies": "fresh_ref(result) and fresh_ref(result['input']) and fresh_ref(result['output'])",
+        "same_content": _same_dict("result['input']", "self.__external_in_heralds") + " and " + _same_dict("result['output']", "self.__external_out_heralds"),
+    },
+    raises={}, props=["C02", "C08"],
+)
+EXT_HERALDS.no_callee = True
+CONTRACTS += [INPUT_MODES, HERALDS, EXT_HERALDS]
